@@ -66,7 +66,11 @@ Definition covered : list string := [
   "get_fan_speed_properties"; "set_fan_level"; "get_fan_level"; "get_led_state"; "set_led_state";
   "set_fru_activation"; "set_fru_deactivation"; "set_fru_activation_policy"; "set_fru_activation_lock";
   "clear_fru_activation_lock"; "set_fru_deactivation_lock"; "clear_fru_deactivation_lock";
-  "get_target_upgrade_capabilities"; "get_upgrade_status"; "query_selftest_results"
+  "get_target_upgrade_capabilities"; "get_upgrade_status"; "query_selftest_results";
+  "set_port_state"; "get_port_state"; "set_signaling_class"; "get_signaling_class"; "send_channel_power";
+  "get_power_channel_status"; "get_pm_global_status"; "send_pm_heartbeat";
+  "get_device_guid"; "get_channel_authentication_capabilities"; "query_rollback_status"; "initiate_manual_rollback";
+  "get_dcmi_capabilities"; "get_power_reading"; "i2c_write_read"; "i2c_read"; "i2c_write"
 ]%string.
 
 Definition is_supported (name : string) : bool :=
